@@ -42,7 +42,19 @@ func shape(ev string) string {
 			alts = append(alts, shapeSeq(splitTop(a, ' ')))
 		}
 		sort.Strings(alts)
-		return loop + "alt{" + strings.Join(alts, "|") + "}"
+		var ded []string
+		for i, a := range alts {
+			if i == 0 || a != alts[i-1] {
+				ded = append(ded, a)
+			}
+		}
+		if len(ded) == 1 && !strings.Contains(ded[0], " ") {
+			if loop != "" && ded[0] != "" {
+				return loop + ded[0]
+			}
+			return ded[0]
+		}
+		return loop + "alt{" + strings.Join(ded, "|") + "}"
 	}
 	if strings.HasPrefix(ev, "case:") || strings.HasPrefix(ev, "if(") {
 		return ev
@@ -323,7 +335,7 @@ func checkC02(c *core.Ctx, l *core.Ledger) {
 			l.Unk("WSEQ", name, "", "method StreamWriter."+name+" not found")
 			continue
 		}
-		got := shapeSeqs(m.WSeqs(f))
+		got := dedupShapes(shapeSeqs(m.WSeqs(f)))
 		wshape[name] = got
 		l.Add(core.Obligation{Rule: "WSEQ", Key: "StreamWriter." + name, Pos: c.Rel(f.Pos()), Status: st(got == dedupShapes(want)),
 			Detail: fmt.Sprintf("success-path write sequence %s; Thrift row %s; extracted events: %s", got, want, normSeqs(m.WSeqs(f)))})
